@@ -965,13 +965,13 @@ pub fn names_for(scheme: &str, n: u32, rng: &mut Rng) -> Vec<String> {
         "plain" => (0..n).map(plain).collect(),
         "partly" => (0..n).map(|i| if i % 2 == 0 { plain(i) } else { String::new() }).collect(),
         "ctrl" => {
-            let pool = ["a\tb", "new\nline", "ünï-cödé", "1abc", "_lead", "del\u{7f}", ".nodes", "cr\rx", "\u{1}", "λ", "0", "-1", "nb\u{a0}sp", "c1\u{85}ctl"];
+            let pool = ["a\tb", "new\nline", "ünï-cödé", "é\tx", "1abc", "_lead", "del\u{7f}", ".nodes", "日\n本", "cr\rx", "\u{1}", "λ", "0", "-1", "nb\u{a0}sp", "c1\u{85}ctl"];
             let mut p: Vec<&str> = pool.to_vec();
             rng.shuffle(&mut p);
             (0..n).map(|i| if i < p.len() { p[i].to_string() } else { plain(i) }).collect()
         }
         "spaces" => {
-            let pool = ["a b", "x y z", " lead", "trail ", " ", "two  blanks", "q"];
+            let pool = ["a b", "x y z", "äb c", " lead", "trail ", " ", "Größe in m", "two  blanks", "日本 語", "q"];
             let mut p: Vec<&str> = pool.to_vec();
             rng.shuffle(&mut p);
             // at least one name with a blank
